@@ -423,6 +423,9 @@ def run(cx):
     # at most once / in order: "this slot holds an undelivered packet" is read from the bit that was set for it
     from props.shared import receiver_flag_addressing
     receiver_flag_addressing(cx, "C01.u")
+    # submission order is queue order: sequence ids are handed out as packets leave the front of the send queue
+    from props.C05 import queue_discipline
+    queue_discipline(cx, "C01.v")
     # a slot the window passes is released whatever its state: stale fragments must not leak into the
     # packet that maps to the same slot one window later
     from props.shared import window_walks
